@@ -2,10 +2,11 @@
 
     What is modelled, and where it comes from:
 
-      pypyr/context.py   Context.__init__           -> [eval_state]   (namespace = ChainMap-pretend-dict
-                                                        over maps [context; imports], builtins in the dict part)
-                         Context.get_eval_string    -> [run_eval]     (eval(src, namespace): globals = locals
-                                                        = the namespace object)
+      pypyr/context.py   Context.get_eval_string    -> [run_eval]     (eval(src, ns) with, PER CALL, ns =
+                                                        _ChainMapPretendDict({}, context, imports): a fresh
+                                                        throw-away first map and a fresh dict part holding
+                                                        __builtins__; globals = locals = ns; neither the
+                                                        scratch map nor the dict part survives the call)
                          pystring_globals_update    -> [pyimport_ns]  (imports kept beside the context)
       pypyr/steps/py.py  run_step                   -> [exec_globals], [run_exec]
                                                        (exec(src, g) with g = context.copy() + __builtins__ + save)
@@ -142,9 +143,10 @@ Fixpoint set_local (x : string) (v : value) (fs : list frame) : option (list fra
 
 (** * Machine state *)
 Record state := mk_state {
-  ctx : ns;              (* the pypyr context = maps[0] of the eval namespace *)
-  imps : ns;             (* Context._pystring_globals = maps[1]: names imported through pyimport *)
-  nsd : ns;              (* raw dict storage of the eval namespace object, besides __builtins__ *)
+  scr : ns;              (* maps[0] of the per-evaluation namespace object: a throw-away dict *)
+  ctx : ns;              (* the pypyr context = maps[1] of the eval namespace *)
+  imps : ns;             (* Context._pystring_globals = maps[2]: names imported through pyimport *)
+  nsd : ns;              (* raw dict storage of the per-evaluation namespace object, besides __builtins__ *)
   g : ns;                (* the exec globals: an exact dict, shallow copy of the context *)
   cns : ns;              (* namespace of the class body being executed *)
   frames : list frame;
@@ -152,14 +154,15 @@ Record state := mk_state {
   saves : list ns        (* ghost: the dicts save(...) handed to context.update, oldest first *)
 }.
 
-Definition set_ctx (c : ns) (s : state) := mk_state c (imps s) (nsd s) (g s) (cns s) (frames s) (heap s) (saves s).
-Definition set_nsd (c : ns) (s : state) := mk_state (ctx s) (imps s) c (g s) (cns s) (frames s) (heap s) (saves s).
-Definition set_g (c : ns) (s : state) := mk_state (ctx s) (imps s) (nsd s) c (cns s) (frames s) (heap s) (saves s).
-Definition set_cns (c : ns) (s : state) := mk_state (ctx s) (imps s) (nsd s) (g s) c (frames s) (heap s) (saves s).
-Definition set_frames (f : list frame) (s : state) := mk_state (ctx s) (imps s) (nsd s) (g s) (cns s) f (heap s) (saves s).
-Definition set_heap (h : list obj) (s : state) := mk_state (ctx s) (imps s) (nsd s) (g s) (cns s) (frames s) h (saves s).
+Definition set_scr (c : ns) (s : state) := mk_state c (ctx s) (imps s) (nsd s) (g s) (cns s) (frames s) (heap s) (saves s).
+Definition set_ctx (c : ns) (s : state) := mk_state (scr s) c (imps s) (nsd s) (g s) (cns s) (frames s) (heap s) (saves s).
+Definition set_nsd (c : ns) (s : state) := mk_state (scr s) (ctx s) (imps s) c (g s) (cns s) (frames s) (heap s) (saves s).
+Definition set_g (c : ns) (s : state) := mk_state (scr s) (ctx s) (imps s) (nsd s) c (cns s) (frames s) (heap s) (saves s).
+Definition set_cns (c : ns) (s : state) := mk_state (scr s) (ctx s) (imps s) (nsd s) (g s) c (frames s) (heap s) (saves s).
+Definition set_frames (f : list frame) (s : state) := mk_state (scr s) (ctx s) (imps s) (nsd s) (g s) (cns s) f (heap s) (saves s).
+Definition set_heap (h : list obj) (s : state) := mk_state (scr s) (ctx s) (imps s) (nsd s) (g s) (cns s) (frames s) h (saves s).
 Definition set_ctx_saves (c : ns) (l : list ns) (s : state) :=
-  mk_state c (imps s) (nsd s) (g s) (cns s) (frames s) (heap s) l.
+  mk_state (scr s) c (imps s) (nsd s) (g s) (cns s) (frames s) (heap s) l.
 
 (** * State-and-error monad. An error keeps the state reached so far (effects before a raise persist). *)
 Definition M (A : Type) := state -> res A * state.
@@ -197,9 +200,12 @@ Definition unbound_local (x : string) : string :=
 Definition unbound_free (x : string) : string :=
   "cannot access free variable '" ++ x ++ "' where it is not associated with a value in enclosing scope".
 
-(** ChainMap.__getitem__ over maps = [context; imports] *)
+(** ChainMap.__getitem__ over maps = [scratch; context; imports] *)
 Definition chain_get (x : string) (s : state) : option value :=
-  match ns_get x (ctx s) with Some v => Some v | None => ns_get x (imps s) end.
+  match ns_get x (scr s) with
+  | Some v => Some v
+  | None => match ns_get x (ctx s) with Some v => Some v | None => ns_get x (imps s) end
+  end.
 
 Definition from_builtins {A} (E : env) (x : string) (s : A) : res value * A :=
   match ns_get x (bi E) with
@@ -231,11 +237,11 @@ Definition load_name (E : env) (x : string) : M value := fun s =>
   end.
 
 (** STORE_NAME: locals.__setitem__; for the eval namespace that is ChainMap.__setitem__,
-    i.e. maps[0][x] = v — the context itself. *)
+    i.e. maps[0][x] = v — the per-evaluation scratch map (the context is maps[1]). *)
 Definition store_name (E : env) (x : string) (v : value) : M unit :=
   if cls E then modify (fun s => set_cns (ns_set x v (cns s)) s)
   else match gk E with
-       | GChain => modify (fun s => set_ctx (ns_set x v (ctx s)) s)
+       | GChain => modify (fun s => set_scr (ns_set x v (scr s)) s)
        | GPlain => modify (fun s => set_g (ns_set x v (g s)) s)
        end.
 
@@ -751,23 +757,27 @@ Fixpoint exec_block (fuel : nat) (E : env) (b : list stmt) : M unit :=
 
 (** * pypyr's part: how the namespaces are built *)
 
-(** Context.__init__: _pystring_namespace = _ChainMapPretendDict(self, self._pystring_globals) *)
-Definition eval_state (c i d : ns) (h : list obj) : state := mk_state c i d [] [] [] h [].
+(** a Context with imports [i] between evaluations: no scratch map, no dict part *)
+Definition eval_state (c i : ns) (h : list obj) : state := mk_state [] c i [] [] [] [] h [].
 Definition eval_env (mt : list (string * ns)) (b : ns) (e : expr) : env :=
   mk_env GChain (gexs e) false false mt b.
 
 (** pypyr.steps.py: globals = context.copy(); globals['__builtins__'] = ...; globals['save'] = save *)
 Definition exec_globals (c : ns) : ns :=
   ns_set "save" (PNative "<save>") (ns_set "__builtins__" (PNative "<builtins>") c).
-Definition exec_state (c : ns) (h : list obj) : state := mk_state c [] [] (exec_globals c) [] [] h [].
+Definition exec_state (c : ns) (h : list obj) : state := mk_state [] c [] [] (exec_globals c) [] [] h [].
 Definition exec_env (mt : list (string * ns)) (b : ns) : env := mk_env GPlain [] false false mt b.
 
 Definition FUEL : nat := 80.
 
-(** Context.get_eval_string(src) on a context in state [s] *)
+(** the namespace object of one evaluation: _ChainMapPretendDict({}, context, imports) *)
+Definition fresh_namespace (s : state) : state := set_scr [] (set_nsd [] (set_frames [] s)).
+
+(** Context.get_eval_string(src) on a context in state [s]: the namespace object is built for this
+    call and dropped after it *)
 Definition run_eval (mt : list (string * ns)) (b : ns) (e : expr) (s : state) : res value * state :=
   if wf_expr [] false false e
-  then eval FUEL (eval_env mt b e) e (set_frames [] s)
+  then let '(r, s') := eval FUEL (eval_env mt b e) e (fresh_namespace s) in (r, fresh_namespace s')
   else (Unsup, s).
 
 Definition wf_stmt (st : stmt) : bool :=
@@ -1010,7 +1020,7 @@ Definition eval_case (mt : list (string * ns)) (b : ns) (n0 : nat) (h : list obj
   match pyimport_ns mt imports [] with
   | None => None
   | Some i =>
-      match run_evals mt b es (eval_state c i [] h) with
+      match run_evals mt b es (eval_state c i h) with
       | Some (rs, s) => observe n0 rs s
       | None => None
       end
